@@ -170,7 +170,11 @@ def run(ctx):
                    "each path that reports success has written the input's own cursor (not a temporary copy), each path that reports failure "
                    "has not (skip_until excepted, as in pest)")
     prims.adv_rule(rp_, repo)
-    rp_.require(9, "primitives")
+    # the helper behind `Input for Position`::next counts characters exactly as pest's Position::skip does (same body)
+    from .c12_c13 import compare_pairs
+    if fs.get("pest") is not None:
+        compare_pairs(ctx, rp_, fs, ["position::Position::<'i>::skip"])
+    rp_.require(10, "primitives")
 
     # ---- stack built-ins: PEEK[a..b] index arithmetic is pest's, each built-in uses the right stack operation (C06's instances)
     from . import c06
